@@ -77,6 +77,20 @@ impl System for SnapSys {
 		let mut n = s.clone();
 		match a {
 			Act::Snapshot => {
+				// the lossless token format, positional (bincode-like) and named: the restored instance must be in
+				// the very same state (Debug text), also when the state holds NaN / infinities
+				for positional in [true, false] {
+					let fl = if positional { "positional" } else { "named" };
+					match catch(|| n.0.a.via_tokens(positional)) {
+						Ok(Ok(c)) => {
+							if c.debug_key() != n.0.a.debug_key() {
+								return Step::Violation(Failure::new(format!("{name}/restore/state-differs[{fl}-format]"), format!("original {} restored {}", n.0.a.debug_key(), c.debug_key())));
+							}
+						}
+						Ok(Err(e)) => return Step::Violation(Failure::new(format!("{name}/restore/rejected[{fl}-format]"), format!("own snapshot rejected: {e}"))),
+						Err(p) => return Step::Violation(Failure::new(format!("{name}/restore/panic[{fl}-format]"), p.msg)),
+					}
+				}
 				let j = match catch(|| n.0.a.to_json()) {
 					Ok(Ok(j)) => j,
 					Ok(Err(e)) => return Step::Violation(Failure::new(format!("{name}/serialize/error"), e)),
@@ -174,6 +188,20 @@ impl System for ISnapSys {
 		let mut n = s.clone();
 		match a {
 			None => {
+				// the lossless token format, positional (bincode-like) and named: the restored instance must be in
+				// the very same state (Debug text), also when the state holds NaN / infinities
+				for positional in [true, false] {
+					let fl = if positional { "positional" } else { "named" };
+					match catch(|| n.0.a.via_tokens(positional)) {
+						Ok(Ok(c)) => {
+							if c.debug_key() != n.0.a.debug_key() {
+								return Step::Violation(Failure::new(format!("{name}/restore/state-differs[{fl}-format]"), format!("original {} restored {}", n.0.a.debug_key(), c.debug_key())));
+							}
+						}
+						Ok(Err(e)) => return Step::Violation(Failure::new(format!("{name}/restore/rejected[{fl}-format]"), format!("own snapshot rejected: {e}"))),
+						Err(p) => return Step::Violation(Failure::new(format!("{name}/restore/panic[{fl}-format]"), p.msg)),
+					}
+				}
 				let j = match catch(|| n.0.a.to_json()) {
 					Ok(Ok(j)) => j,
 					Ok(Err(e)) => return Step::Violation(Failure::new(format!("{name}/serialize/error"), e)),
@@ -257,12 +285,19 @@ fn adversarial(h: &mut H) {
 fn configs_roundtrip(h: &mut H) {
 	let sink = VioSink::new("Serde/configs");
 	let mut n = 0u64;
-	for c in indicator_configs(true) {
+	let mut all = indicator_configs(true);
+	all.extend(float17_configs());
+	for c in all {
 		n += 1;
 		let name = c.const_name();
 		let j = c.to_json().unwrap_or_default();
 		match c.from_json(&j) {
 			Ok(c2) => {
+				// the restored configuration itself (Debug prints every float with its shortest exact form), not
+				// only what it serializes to
+				if c2.debug_key() != c.debug_key() {
+					sink.push(&format!("{name}/config/roundtrip-changes-a-field"), j.clone(), format!("{} became {}", c.debug_key(), c2.debug_key()));
+				}
 				if c2.to_json().unwrap_or_default() != j {
 					sink.push(&format!("{name}/config/roundtrip-differs"), j.clone(), c2.to_json().unwrap_or_default());
 				}
@@ -274,6 +309,24 @@ fn configs_roundtrip(h: &mut H) {
 		}
 	}
 	h.run.enum_block("Serde/indicator configs round trip", n, n, true, serde_json::json!("default + small-period + MA-kind variants of every indicator"), sink.into_violations());
+}
+
+/// every float parameter at values whose shortest decimal form needs 17 significant digits
+pub fn float17_configs() -> Vec<Box<dyn IndCfg>> {
+	let mut v = vec![];
+	for c in defaults() {
+		// (a float parameter is recognised by what `set` does with a float text, not by the JSON type of the
+		// field: a serializer that writes floats as text must not hide them from this check)
+		for (key, _) in json_map(&c.to_json().unwrap()) {
+			for t in ["0.30000000000000004", "1.4142135623730951", "0.1234567890123456", "1.2100000000000002", "0.07000000000000001"] {
+				let mut x = c.boxed_clone();
+				if x.set(&key, t.to_string()).is_ok() && x.validate() && x.debug_key().contains(t) {
+					v.push(x);
+				}
+			}
+		}
+	}
+	v
 }
 
 /// default config, a small-period config and MA-kind variants of every indicator
@@ -378,6 +431,7 @@ fn main() {
 	let ks = alpha::k_candles();
 	h.go(&ISnapSys { cfgs: indicator_configs(false), alphabet: ks[..4].to_vec(), pre: if thorough { 5 } else { 3 }, tag: "default+small".into() }, &Limits::depth(20).wall_secs(600), true);
 	h.go(&ISnapSys { cfgs: indicator_configs(false), alphabet: checks::grid::mixed_candles(), pre: if thorough { 5 } else { 3 }, tag: "default+small/mixed-magnitudes".into() }, &Limits::depth(20).wall_secs(600), true);
+	h.go(&ISnapSys { cfgs: float17_configs(), alphabet: ks[..3].to_vec(), pre: 2, tag: "float-parameters-with-17-digits".into() }, &Limits::depth(20).wall_secs(600), true);
 	if thorough {
 		h.go(&ISnapSys { cfgs: indicator_configs(true), alphabet: ks[..3].to_vec(), pre: 3, tag: "ma-kinds".into() }, &Limits::depth(20).wall_secs(900), true);
 	}
